@@ -101,6 +101,11 @@ func (c *End) Read(p []byte) (int, error) {
 	copy(p, s.buf[:n])
 	s.buf = s.buf[n:]
 	s.readOff += n
+	if e.hb != nil {
+		// syscall.Read: race.WriteRange(buffer) + race.Acquire(&ioSync)
+		rangeAccess(p[:n], true, "net.Conn.Read")
+		e.hb.acquire(e.cur.id, e.hb.ioSync)
+	}
 	return n, nil
 }
 
@@ -119,6 +124,12 @@ func (c *End) Write(p []byte) (int, error) {
 	}
 	if s.rclosed {
 		return 0, ErrPipe
+	}
+	if e.hb != nil {
+		// syscall.Write: race.ReadRange(buffer) + race.ReleaseMerge(&ioSync)
+		rangeAccess(p, false, "net.Conn.Write")
+		e.hb.ioSync = e.hb.ioSync.join(e.hb.clock(e.cur.id))
+		e.hb.tick(e.cur.id)
 	}
 	n := len(p)
 	if s.failAt >= 0 && s.total+n > s.failAt {
